@@ -258,7 +258,7 @@ LISTS = (VECTORS + [from_py(x) for x in MATRICES] + [from_py(x) for x in RANK3]
          + [L(L(C("a"), C("b")), L(C("c"), C("d"))), L(L(), S(""))])
 STRS = [S(s) for s in STRINGS]
 
-OPERANDS = ATOMS + STRS + LISTS + [U]
+OPERANDS = ATOMS + STRS + LISTS      # :undefined has no literal form; it is bound by name where needed
 
 
 def int_only(v):
